@@ -598,6 +598,12 @@ func (e fixEvaluator) SumLow(op0, op1, opOut *rlwe.Ciphertext) {
 	*opOut.MetaData = *op0.MetaData
 }
 
+// INDEG control: the first two components of the input, whatever its degree
+func (e fixEvaluator) SumTwo(ctIn, opOut *rlwe.Ciphertext) {
+	e.r.Add(ctIn.Value[0], ctIn.Value[1], opOut.Value[0])
+	*opOut.MetaData = *ctIn.MetaData
+}
+
 // NILELEMS control: the scratch vector is allocated but its elements never are
 type scratch struct{ buf []*big.Int }
 
